@@ -20,6 +20,10 @@ def run(res):
            gocmd="l2core", prelude="Definition step_rec := kstep_rec.\n",
            check_fn="(fun h => kcheck_from %s %s kinit 0 h)" % (IDFIX, DIALFIX),
            ambig_fn="(fun h => kambiguous_from %s %s kinit 0 h)" % (IDFIX, DIALFIX))
+    # "the socket, its listener and its dialer carry on accepting and redialling" on the real stream transports: a peer that
+    # hangs up or stalls at any point of the handshake is that connection's failure only (harness/cmd/stream)
+    from .. import stream
+    res.coverage["transport_handshake_scenarios"] = stream.run(res, "C13")
     # the pipe ID allocator itself, around every boundary of its counter (verif hooks position the counter)
     out, defs, (rc, so, se) = core.gen_and_eval("C13_ids", "c13ids",
         "From MV Require Import Lib.Check Model.PipeId.\nOpen Scope N_scope.\nOpen Scope list_scope.\n",
